@@ -1008,7 +1008,8 @@ class NDCube(NDCubeBase):
         return self.__mul__(1/value)
 
     def __rtruediv__(self, value):
-        return self.__pow__(-1).__mul__(value)
+        # A float exponent so that integer data can be inverted.
+        return self.__pow__(-1.0).__mul__(value)
 
     def __pow__(self, value):
         new_data = self.data ** value
